@@ -13,7 +13,7 @@ import ast
 
 from .. import AnalysisError
 from ..dtypeai import KINDS, outcomes as dt_outcomes
-from ..flow import view_of
+from ..flow import view_of, untag
 from ..guards import Conds, Universe, to_formula, show
 from ..model import U
 from .common import CONVERTER, VALIDATION, call_name, walk_own, parse_expr
@@ -376,6 +376,70 @@ def check_lost_update(ctx):
     ctx.floor('R-CONV/lost-update', n, 3, 'conversion call sites')
 
 
+def check_series_returns(ctx):
+    """series_to_str: a constant boolean is returned only as True and only in inplace mode; with inplace=False the
+    function returns a Series, never a flag"""
+    repo = ctx.repo
+    f = repo.fn(CONVERTER, 'series_to_str')
+    conds = Conds(f.node, None)
+    n_true = 0
+    for r in [n for n in walk_own(f.node) if isinstance(n, ast.Return)]:
+        c = conds.of(r)
+        v = r.value
+        is_flag = isinstance(v, ast.Constant) and isinstance(v.value, bool)
+        under_inplace = Universe().implies(c, to_formula(parse_expr('inplace'))) is None
+        under_copy = Universe().implies(c, to_formula(parse_expr('not inplace'))) is None
+        if is_flag:
+            ok = v.value is True and under_inplace
+            n_true += 1 if ok else 0
+            ctx.check('R-CONV/series-return', f, 'flag @ %s' % show(c)[:60], ok,
+                      '`return %s` under `%s`: the only flag the function returns is True, and only with inplace=True'
+                      % (v.value, show(c)[:100]), r, sample='return True under inplace')
+        elif under_copy:
+            ctx.check('R-CONV/series-return', f, 'copy @ %s' % show(c)[:60], v is not None,
+                      'with inplace=False nothing is returned under `%s`' % show(c)[:100], r, sample='returns %s' % U(v)[:40] if v is not None else '')
+    ctx.floor('R-CONV/series-return', n_true, 1, '`return True` sites of the inplace mode')
+
+
+def check_shortcut(ctx):
+    """dataframe_column_to_str(inplace=True) may skip the conversion (plain astype(object)) only for a column that is
+    empty or entirely missing"""
+    repo = ctx.repo
+    f = repo.fn(CONVERTER, 'dataframe_column_to_str')
+    view = view_of(f)
+    ex = lambda e, st: untag(view.expand(e, st))     # noqa
+    conds = Conds(f.node, ex)
+    frame, col = f.params[0], f.params[1]
+    colx = '%s[%s]' % (frame, col)
+    ref = to_formula(parse_expr('len(%s) == 0 or sum(pd.isnull(%s)) == len(%s)' % (colx, colx, colx)))
+    n = 0
+    for st in walk_own(f.node):
+        if not (isinstance(st, ast.Assign) and isinstance(st.targets[0], ast.Subscript) and U(st.targets[0].value) == frame):
+            continue
+        vx = ex(st.value, st)
+        sites = [(vx, st)]
+        if isinstance(vx, ast.Name):
+            # a value chosen on several branches: each branch is judged under its own condition
+            ds = [d for d in view.reaching(vx.id, st) if d.value is not None and d.node is not None]
+            if ds:
+                sites = [(ex(d.value, d.node), d.node) for d in ds]
+        for vx, at in sites:
+            _shortcut_site(ctx, f, conds, ref, vx, at)
+            n += 1
+    ctx.floor('R-CONV/shortcut', n, 0, 'unconverted stores')
+
+
+def _shortcut_site(ctx, f, conds, ref, vx, st):
+    if True:
+        if any(isinstance(x, ast.Call) and call_name(x) == 'series_to_str' for x in ast.walk(vx)):
+            return
+        c = conds.of(st)
+        w = Universe(int_atoms=lambda a: True).implies(c, ref)
+        ctx.check('R-CONV/shortcut', f, 'store without conversion', w is None,
+                  '`%s` stores the column without converting its values under `%s`; that is allowed only when the column '
+                  'is empty or entirely missing' % (U(st)[:60], show(c)[:120]), st, sample=show(c)[:100])
+
+
 def run(ctx, gate=True, converter=True):
     if gate:
         ctx.group('R-DTYPE')
@@ -386,6 +450,8 @@ def run(ctx, gate=True, converter=True):
         ctx.group('R-CONV')
         check_heads(ctx)
         check_return_kinds(ctx)
+        check_series_returns(ctx)
+        check_shortcut(ctx)
         check_value_mapping(ctx)
         check_index_preserving(ctx)
         check_lost_update(ctx)
